@@ -168,6 +168,7 @@ func genC20Plan(r *zsim.Rng) *sysPlan {
 }
 
 var scrollInfoRe = regexp.MustCompile(`\s+\d+/\d+$`)
+var scrollTightRe = regexp.MustCompile(`\d+/\d+$`)
 
 func isPreviewProc(p *simos.Proc) bool {
 	return strings.HasPrefix(p.Command, "PV")
@@ -283,6 +284,12 @@ func c20Settle(r *sysRun, busy bool) {
 		}
 	}
 	visible := t.hasPreviewWindow()
+	if visible && (t.activePreviewOpts.hidden || t.forcePreview) {
+		// the window was forced open by a one-off preview(...) (possibly while the regular preview is switched
+		// off): it is not refreshed when the state changes - same exclusion as for PVX below
+		c.count("settle.one_off_window", 1)
+		visible = false
+	}
 	if !visible {
 		// Nothing to show. (A command that was queued before the window got hidden may still be started and run to
 		// its natural end while hidden; the statement only speaks of superseded commands, so this is not checked.)
@@ -339,7 +346,7 @@ func c20Settle(r *sysRun, busy bool) {
 	}
 	gotSel := w[4:]
 	if w[1] != wantN || w[2] != st.Query || w[3] != wantLine || strings.Join(gotSel, " ") != strings.Join(wantSel, " ") {
-		c.violate("c20.stale", "the preview command that ran last is %q: line #%s query %q selection %v; the state at settle is line #%s query %q selection %v", last.Command, w[1], w[2], gotSel, wantN, st.Query, wantSel)
+		c.violate("c20.stale", "the preview command that ran last is %q: line #%s query %q selection %v; the state at settle is line #%s query %q selection %v (preview switched off=%v, window forced by a one-off preview=%v, can preview=%v)", last.Command, w[1], w[2], gotSel, wantN, st.Query, wantSel, t.activePreviewOpts.hidden, t.forcePreview, t.canPreview())
 		return
 	}
 	// what the pane holds is what that command has emitted
@@ -392,7 +399,14 @@ func c20Settle(r *sysRun, busy bool) {
 				}
 				got := strings.TrimRight(string(rs[left:left+width]), " ")
 				if i == 0 {
-					// the first row may carry the scroll indicator "offset/total" at its right end
+					// the first row may carry the scroll indicator "offset/total" at its right end; in a narrow pane
+					// it is drawn right over the end of the text ("l1" + "1/5" = "l11/5")
+					if m := scrollTightRe.FindString(got); m != "" && len([]rune(got)) >= width-1 {
+						got = strings.TrimSuffix(got, m)
+						if len(got) < len(strings.TrimRight(strings.TrimRight(l, "\n"), " ")) {
+							continue // part of the text is covered: nothing to compare on this row
+						}
+					}
 					got = strings.TrimRight(scrollInfoRe.ReplaceAllString(got, ""), " ")
 				}
 				wantLine := strings.TrimRight(strings.TrimRight(l, "\n"), " ")
